@@ -166,6 +166,11 @@ fn respond(line: &str) -> Option<String> {
         ["lint", src] => Some(lint(&unx(src)?)),
         ["fold", src] => fold(&unx(src)?),
         ["walk", src, f] => walk_request(&unx(src)?, optional_index(f)?),
+        // (harness only) one runner reused: K walks failing at W, then the walk that is reported
+        ["walkseq", src, w, k, f] => {
+            let (w, k, f) = (optional_index(w)?, k.parse().ok()?, optional_index(f)?);
+            parse(&unx(src)?).ok().map(|program| walk::walk_seq(&program, w, k, f))
+        }
         ["val", op, args @ ..] => valapi::val_request(op, args),
         ["fmt", b] => Some(xhex(&unbits(b)?.to_string())),
         ["num", text] => Some(unx(text)?.parse::<f64>().map_or_else(|_| "none".to_string(), bits)),
